@@ -134,6 +134,46 @@ class P2PNet(Engine):
                               'args': {'conn': cid, 'how': rng.choice(['eof', 'eof', 'rst'])}})
         return {'engine': self.name, 'property': [prop], 'config': {'parties': parties, 'conns': conns}, 'steps': steps}
 
+    # ---- the protocol's own maxima (a peer flushing a full queue sends exactly these counts); the plan
+    # carries only a recipe, the entries are expanded at execution time
+    LIMIT_PLANS = [('inv', 'inv', 50000), ('getdata', 'inv', 50000), ('notfound', 'inv', 50000), ('inv', 'inv', 49999),
+                   ('addr', 'addrs', 1000), ('headers', 'headers', 2000), ('getheaders', 'have', 101), ('getblocks', 'have', 500)]
+
+    def systematic(self, prop, tier):
+        plans = []
+        for k, (typ, field, count) in enumerate(self.LIMIT_PLANS):
+            chain = seams.CHAINS[k % len(seams.CHAINS)]
+            conn = {'src': 0, 'dst': 1, 'style': STYLES[k % len(STYLES)], 'bufsize': 65536, 'on_reject': 'continue', 'sizes': [1 << 30], 'gaps': [0.0], 'reply': None}
+            msg = {'type': typ, 'f': {}, 'expand': {'field': field, 'count': count, 'salt': k}}
+            if typ in ('getheaders', 'getblocks'):
+                msg['f'] = {'version': 70015, 'stop': '00' * 32}
+            steps = [{'t': 0.0, 'prio': 0, 'party': 0, 'op': 'send', 'args': {'conn': 0, 'msg': msg, 'via': 'to_bytes', 'faults': []}},
+                     {'t': 0.0, 'prio': 1, 'party': 0, 'op': 'send', 'args': {'conn': 0, 'msg': {'type': 'ping', 'f': {'nonce': k}}, 'via': 'to_bytes', 'faults': []}}]
+            plans.append({'engine': self.name, 'property': [prop], 'config': {'parties': [{'chain': chain, 'skew': 0.0}, {'chain': chain, 'skew': 0.0}], 'conns': [conn], 'systematic': 'protocol-maximum'},
+                          'steps': steps})
+        return plans
+
+    @staticmethod
+    def _expand(msg):
+        e = msg.get('expand')
+        if not e:
+            return msg
+        import hashlib
+        m = {'type': msg['type'], 'f': dict(msg['f'])}
+        n, salt = e['count'], e['salt']
+
+        def h(i):
+            return hashlib.sha256(b'%d/%d' % (salt, i)).hexdigest()
+        if e['field'] == 'inv':
+            m['f']['inv'] = [{'type': (1, 2, 3, 1 | 1 << 30)[i & 3], 'hash': h(i)} for i in range(n)]
+        elif e['field'] == 'addrs':
+            m['f']['addrs'] = [{'services': i, 'ip': '00' * 10 + 'ffff' + '%08x' % (0x0a000000 + i), 'port': 8333 + (i & 7), 'time': 1700000000 + i} for i in range(n)]
+        elif e['field'] == 'headers':
+            m['f']['headers'] = [{'version': 4, 'prev': h(i), 'merkle': h(i + n), 'time': 1600000000 + i, 'bits': 0x1d00ffff, 'nonce': i} for i in range(n)]
+        elif e['field'] == 'have':
+            m['f']['have'] = [h(i) for i in range(n)]
+        return m
+
     def _gen_sizes(self, rng):
         r = rng.random()
         if r < 0.25:
@@ -254,7 +294,7 @@ class P2PNet(Engine):
         if op == 'send':
             c = self.conns[a['conn'] % len(self.conns)]
             self._enter(c.src)
-            self._send(c, a['msg'], a.get('via', 'to_bytes'), a.get('faults') or [], i)
+            self._send(c, self._expand(a['msg']), a.get('via', 'to_bytes'), a.get('faults') or [], i)
         elif op == 'badsend':
             # the sending application hands the library a message it cannot frame (a field outside its
             # wire range): the call raises part-way through; nothing of it may reach later frames
